@@ -64,6 +64,76 @@ func ladder(arg string) (code int) {
 	return 0
 }
 
+// manyBP performs n independent back-propagations of y = (x * w) + x in ONE process and checks every one of them:
+// per-process counters, stamps and pools of the library (walk numbers, visited marks, recycled buffers) must not make
+// the k-th back-propagation of a process differ from the first.
+func manyBP(arg string) (code int) {
+	defer func() {
+		if r := recover(); r != nil {
+			fmt.Println("MANYBP-ERROR panic:", r)
+			code = 1
+		}
+	}()
+	n, err := strconv.Atoi(arg)
+	if err != nil {
+		return 2
+	}
+	for k := 1; k <= n; k++ {
+		x, _ := bind.New([]int{2}, []float64{1.5, -2}, true)
+		w, _ := bind.New([]int{2}, []float64{float64(k%7) + 1, 0.25}, false)
+		m, err := x.Mul(w)
+		if err != nil {
+			fmt.Println("MANYBP-ERROR", err)
+			return 1
+		}
+		y, err := m.Add(x)
+		if err != nil {
+			fmt.Println("MANYBP-ERROR", err)
+			return 1
+		}
+		if err := tensor.BackPropagate(y); err != nil {
+			fmt.Printf("MANYBP-ERROR back-propagation %d of this process failed: %v\n", k, err)
+			return 1
+		}
+		g := x.Gradient()
+		if g == nil {
+			fmt.Printf("MANYBP-ERROR back-propagation %d of this process left no gradient on the tracked leaf\n", k)
+			return 1
+		}
+		_, flat, err := bind.Read(g)
+		if err != nil || len(flat) != 2 || flat[0] != float64(k%7)+2 || flat[1] != 1.25 {
+			fmt.Printf("MANYBP-ERROR back-propagation %d of this process: gradient %v, expected [%v 1.25]\n", k, flat, float64(k%7)+2)
+			return 1
+		}
+	}
+	fmt.Println("MANYBP-DONE", n)
+	return 0
+}
+
+func manyBPCheck(c *run.Ctx, n int) error {
+	self, err := os.Executable()
+	if err != nil {
+		return run.Brokenf("%v", err)
+	}
+	runOne := func() string {
+		out, _ := exec.Command("timeout", "600", self, "manybp", fmt.Sprint(n)).CombinedOutput()
+		return string(out)
+	}
+	out := runOne()
+	if strings.Contains(out, "MANYBP-ERROR") {
+		if again := runOne(); strings.Contains(again, "MANYBP-ERROR") {
+			c.Violate(fmt.Sprintf("%d independent back-propagations in one process: %s", n, strings.TrimSpace(run.Tail(out, 2))), map[string]any{"manybp": n, "output": run.Tail(out, 5)})
+			return nil
+		}
+	}
+	if !strings.Contains(out, "MANYBP-DONE") {
+		return run.Brokenf("many-back-propagations subprocess failed: %s", run.Tail(out, 5))
+	}
+	c.AddExtra("many_backpropagations_one_process", fmt.Sprintf("%d independent graphs back-propagated and checked in one process (16-bit counters wrap at 65536)", n))
+	c.Count(fmt.Sprintf("manybp-%d", n), true)
+	return nil
+}
+
 // ladderCheck: a deep graph with exponentially many paths must back-propagate in time linear in its size, applying
 // every edge exactly once (validated structurally by TLC) and leaving the exact derivative.
 func ladderCheck(c *run.Ctx, depth int) error {
